@@ -8,7 +8,7 @@ CONSTANTS
   Wipeouts = TRUE
   Collide = TRUE
   Times = {1}
-  KeepGoing = {FALSE}
+  KeepGoing = {FALSE, TRUE}
   Design = "atomic"
 INIT TraceInit
 NEXT TraceNext
